@@ -6,7 +6,7 @@ from . import cachegen as cg
 ID = "C05"
 DRIVER = "cache"
 COQ_TARGETS = ["Properties/C05.vo"]
-THEOREMS = ["C05_ttl0_not_stored_step"]
+THEOREMS = ["C05_never_served_expired", "C05_ttl_not_exceeding_remaining", "C05_ttl0_not_stored_step", "C05_ttl0_not_stored", "C05_reinsert_restarts_no_duplicate", "C05_live_record_is_returned", "C05_last_second_withheld", "C05_step_refines"]
 RULE = (cg.RULE_GEN + "; non-trivial = distinct history with at least 3 operations other than clock steps")
 ASSUMPTIONS = [
     "thread schedules and std::sync::Mutex are not modelled: every SharedCache method is one critical section",
@@ -102,7 +102,12 @@ def _check(steps):
         have = sorted((t, d, ttl) for n, t, cl, ttl, d in rrs)
         want.sort()
         if have != want:
-            missing = [w for w in want if w not in have]
+            fn = "get" if k == "G" else "get_without_checking_expiration"
+            if [x[:2] for x in have] == [x[:2] for x in want]:
+                h, w = [(x, y) for x, y in zip(have, want) if x != y][0]
+                return ("ttl-not-time-left", "%s(%s,%d) at %d reports TTL %d for %d %s; whole seconds left: %d"
+                        % (fn, qn, qt, now, h[2], h[0], h[1], w[2]))
+            missing = [w for w in want if w[:2] not in [x[:2] for x in have]] or [w for w in want if w not in have]
             if missing:
                 return ("missing-record", "%s(%s,%d) at %d did not return (type, data, ttl) %s held by the cache"
                         % ("get" if k == "G" else "get_without_checking_expiration", qn, qt, now, missing[0]))
